@@ -97,6 +97,24 @@ def textGap (f : Forest) (a : Nat) : Bool :=
       ((c.right.head?.map (·.value.isText)).getD false)
   | none => false
 
+/-- `clone_node` of an element replays the source under a temporary top element and finally takes
+    the top out with indextree `remove`.  This says that after the replay the top is still a
+    parentless node with at most one child (what the final `remove` needs). -/
+def cloneTopOK (f : Forest) (node : Nat) : Bool :=
+  match f.get? node with
+  | none => true
+  | some src =>
+    match src.value with
+    | .element name =>
+      (match cloneInto (f.newElement name).1 (f.newElement name).2 src with
+       | some f2 =>
+         f2.isRoot (f.newElement name).2 &&
+           (match f2.get? (f.newElement name).2 with
+            | some t => decide (t.kids.length ≤ 1)
+            | none => true)
+       | none => true)
+    | _ => true
+
 /-- A history. -/
 def run (f : Forest) (ops : List Op) : Forest := ops.foldl step f
 
